@@ -213,8 +213,9 @@ theorem mkRev_read_aligned {sub : FileLike} {csub : List Byte} {k : Nat} {fpk : 
       have hrows : ((m * w : Nat) : Int).toNat / w = m := by
         rw [Int.toNat_natCast]; exact Nat.mul_div_cancel _ hw
       simp only [hrows, hlen]
+      have hsz : ¬ (m * w ≠ ((m * w : Nat) : Int).toNat) := by rw [Int.toNat_natCast]; omega
       have hw0 : ¬ (w = 0 ∨ m * w ≠ m * w) := by omega
-      simp only [hw0, if_false]
+      simp only [hsz, hw0, if_false]
       rw [revContent_block w R csub hc q m hqm])
   refine ⟨s', ?_, ?_, h3, h4⟩
   · simpa [mkRev] using h1
